@@ -316,3 +316,70 @@ func returnsZeroStruct(fn *ssa.Function) bool {
 	})
 	return found
 }
+
+// c08UnitlessZero (R20): a unitless number is a length only when it is zero (CSS Values §5.2).  In getLength the
+// scalar zero is produced under a comparison of the token's floating point value with 0 — not of its integer part,
+// which is 0 for every number in (−1, 1): `margin: 0.9` would be accepted as 0.
+func c08UnitlessZero(c *core.Check) {
+	p := c.Prog
+	r := c.Rule("R20", "unitless zero only: in css/validation.getLength the branch that builds the zero length for a Number token is entered by a comparison of the token's float value (ValueF) with 0", 1)
+	fn := p.Fn("css/validation", "getLength")
+	if fn == nil {
+		r.Anchor("css/validation.getLength")
+		return
+	}
+	key := "css/validation.getLength | unitless number"
+	// calls NewDim(0, …)
+	var zeros []*ssa.Call
+	core.Instrs(fn, func(in ssa.Instruction) {
+		call, ok := in.(*ssa.Call)
+		if !ok || call.Call.StaticCallee() == nil || call.Call.StaticCallee().Name() != "NewDim" || len(call.Call.Args) < 1 {
+			return
+		}
+		if z, ok := core.ConstFloat(call.Call.Args[0]); ok && z == 0 {
+			zeros = append(zeros, call)
+		}
+	})
+	if len(zeros) == 0 {
+		r.Unknown(key, p.Pos(fn.Pos()), "no construction of a zero dimension")
+		return
+	}
+	for i, z := range zeros {
+		guarded, other := false, ""
+		for _, b := range fn.Blocks {
+			if len(b.Instrs) == 0 {
+				continue
+			}
+			ifi, ok := b.Instrs[len(b.Instrs)-1].(*ssa.If)
+			if !ok || !(b.Succs[0] == z.Block() || b.Succs[0].Dominates(z.Block())) || len(b.Succs[0].Preds) != 1 {
+				continue
+			}
+			bo, ok := ifi.Cond.(*ssa.BinOp)
+			if !ok || bo.Op != token.EQL {
+				continue
+			}
+			if zz, ok := constNumber(bo.Y); !ok || zz != 0 {
+				continue
+			}
+			isField := func(v ssa.Value) bool {
+				switch x := v.(type) {
+				case *ssa.Field:
+					if st, ok := x.X.Type().Underlying().(*types.Struct); ok {
+						return st.Field(x.Field).Name() == "ValueF"
+					}
+				case *ssa.UnOp:
+					if fa, ok := x.X.(*ssa.FieldAddr); ok {
+						return core.FieldName(fa) == "ValueF"
+					}
+				}
+				return false
+			}
+			if isField(bo.X) {
+				guarded = true
+			} else {
+				other = bo.X.String()
+			}
+		}
+		r.Cond(guarded, fmt.Sprintf("%s #%d", key, i+1), p.Pos(z.Pos()), "under ValueF == 0", "the zero length is built under a test of "+other+" instead of the float value: every unitless number whose tested part is 0 (0.5, -0.75, 9e-1) is accepted as the length 0")
+	}
+}
